@@ -44,6 +44,8 @@ def run(tier):
         for big in ("XL", "CTL", "BSL", "U2", "U2a", "U3", "U3a", "U3b", "U4", "U4a"):
             cases += [{"abs": False, "comps": ["..", big]}, {"abs": True, "comps": [big]}, {"abs": False, "comps": [big, "..", "n"]},
                       {"abs": False, "comps": ["d", big, "..", "..", "..", "n"]}]
+        for bk in ("BK1", "BK2", "BK3", "BK4"):
+            cases += [{"abs": False, "comps": [bk]}, {"abs": False, "comps": ["n", bk]}, {"abs": False, "comps": [bk, "n"]}]
         log(f"[C11] PathGuard: {r.distinct} states, {len(cases)} paths to send")
         hashes = hr.compute_hashes(bins["vh_lib"], work)
         recs = hp.run_cases(copia, shim, os.path.join(work, "p"), hashes, cases)
